@@ -469,6 +469,12 @@ class LinearCall(AbstractCall):
           avg = (o >= lo) & (o <= hi)
           zero = (o >= E.pmin(lo, 0) * eps) & (o <= E.pmax(hi, 0) * eps)
           cl.append(('weighted-average-or-numerically-zero-weights', avg | zero))
+          # ghost flag: 1 = the weights were normalised (the weighted-average case); used to state the
+          # end-to-end bound clause outside the region of known finding F-C03a
+          if C.active():
+            gv = P.var(E.fresh_name('normalised'))
+            C.cur().__dict__.setdefault('_c03_normalised', []).append(gv)
+            cl.append(('ghost', (gv.eq(1) | gv.eq(0)) & (gv.eq(1).implies(avg))))
     for r, s in _rows_pairs(len(X)):
       for u in range(layer.units):
         le = _conj([(X[r][u][i] <= X[s][u][i]) if monos[i] == 1 else
@@ -804,6 +810,12 @@ class ModelCase(Case):
         cl.append(('model-output>=output_min', o0 >= lo))
       if hi is not None:
         cl.append(('model-output<=output_max', o0 <= hi))
+      flags = c.__dict__.get('_c03_normalised', [])
+      if flags and (lo is not None or hi is not None):
+        # outside the region of F-C03a (every averaging layer has normalised weights) the bounds must hold
+        allnorm = E.ball([g.eq(1) for g in flags])
+        inb = E.ball(([o0 >= lo] if lo is not None else []) + ([o0 <= hi] if hi is not None else []))
+        cl.append(('model-output-in-range-when-averaging-weights-are-normalised', allnorm.implies(inb)))
       cl.append(('deterministic: equal inputs give equal outputs', o0.eq(o1)))
     elif isinstance(vary_t[1], tuple):
       cl.append(('categorical-pair-ordered[%s:%d<=%d]' % (vary_t[0], vary_t[1][0], vary_t[1][1]), o0 <= o1))
@@ -855,7 +867,8 @@ class LayerContractCase(Case):
       x = tfc.sym([2, layer.num_input_dims], 'x')
     y = layer.call(x)
     y = tfc.concat(y, axis=1) if isinstance(y, list) else y
-    return [('%s[%s]:%s' % (ac.cls, layer.name, nm), f) for nm, f in ac.post(layer, x, y)]
+    # 'ghost' facts introduce an existential flag (witness 0): nothing to prove about them here
+    return [('%s[%s]:%s' % (ac.cls, layer.name, nm), f) for nm, f in ac.post(layer, x, y) if nm != 'ghost']
 
 
 CASES = {'model': ModelCase(), 'layer_contract': LayerContractCase()}
